@@ -440,3 +440,36 @@ def union_pairs():
                 out.append(dict(name=f'T{x}|T{y}|T{z}/union', term=('union', u, tz),
                                 text=f'select ({su} union {sz})', nested=True))
     return out
+
+
+# ------------------------------------------------------------------ nested FOR over a duplicate inner iterator
+def nested_for_shapes():
+    """Fixed terms (run first): nested FOR with a unique outer iterator, a DUPLICATE inner iterator (`{3, 3}` or a
+    path through the non-exclusive property p1, whose values coincide in COMBO_DB) and a body rooted in the
+    OUTER variable — every outer element is repeated once per inner element, the result has duplicates and must
+    not be classified UNIQUE.  Schema / database: COMBO_SCHEMA / COMBO_DB.  -> dicts {name, term, text}"""
+    dup = (('cset', (3, 3)), '{3, 3}')
+    prop = (('path', ('root', 0), 1), '(DETACHED T0).p1')
+    ints = (('cset', (1, 2)), '{1, 2}')
+    objs = (('root', 0), '(DETACHED T0)')
+    out = []
+
+    def add(name, outer, inner, body_t, body_x):
+        out.append(dict(name=name, term=('for', outer[0], ('for', inner[0], body_t)),
+                        text=f'select (for x1 in {outer[1]} union (for x2 in {inner[1]} union {body_x}))'))
+    add('ints/dupset/outer-var', ints, dup, ('var', 1), 'x1')
+    add('ints/dup-prop/outer-var', ints, prop, ('var', 1), 'x1')
+    add('objs/dupset/outer-var', objs, dup, ('var', 1), 'x1')
+    add('objs/dupset/outer-excl-prop', objs, dup, ('path', ('var', 1), 0), 'x1.p0')
+    add('objs/dup-prop/outer-link', objs, prop, ('path', ('var', 1), 2), 'x1.p2')
+    add('ints/uniqueset/outer-var', ints, (('cset', (3, 4)), '{3, 4}'), ('var', 1), 'x1')
+    add('ints/dupset/inner-var', ints, dup, ('var', 0), 'x2')
+    out.append(dict(name='ints/dupset/three-levels',
+                    term=('for', ints[0], ('for', dup[0], ('for', ('cset', (5, 6)), ('var', 2)))),
+                    text='select (for x1 in {1, 2} union (for x2 in {3, 3} union (for x3 in {5, 6} union x1)))'))
+    out.append(dict(name='ints/dupset/filter-on-outer',
+                    term=('for', ints[0], ('for', dup[0], ('filter', ('root', 0),
+                                                           ('call', FN_IX['eq'], (('path', ('var', 0), 1), ('var', 2)))))),
+                    text='select (for x1 in {1, 2} union (for x2 in {3, 3} union '
+                         '(select (DETACHED T0) filter (.p1 = x1))))'))
+    return out
